@@ -183,6 +183,9 @@ def check_c11(tier):
             name = "p-" + c["case"]
             running.append(agentgen.stmt(name, f"/* bgpfu-fltr: {c['expr_str']} */"))
             policies[name] = {"sel": True, "marked": True, "eval": "skip", "v4": [], "v6": [], "expr": "", "why": "c11"}
+        # next to them a policy that names an as-set nobody registered: it is left out, the others get exactly their sets
+        running.append(agentgen.stmt("p-unregistered", "/* bgpfu-fltr: AS-NOBODY-REGISTERED-THIS */"))
+        policies["p-unregistered"] = {"sel": True, "marked": True, "eval": "fail", "v4": [], "v6": [], "expr": "", "why": "c11: unknown as-set"}
         scen.append({"case": f"C11-a{k}", "instance": "bgpfu", "eph0": [],
                      "runs": [{"running": running, "irr": g["irr"], "faults": [], "repeat": False,
                                "expect": {"prop": "C11", "c16": False, "policies": policies}}], "meta": {"group": k}})
@@ -197,7 +200,11 @@ def check_c11(tier):
                          meta=dict(s["meta"], mode="daemon: first commit refused")))
         scen.append(dict(s, case=s["case"] + "-D2", daemon={"period": 1, "sessions": 3, "reset_before": [3]}, runs=[run],
                          meta=dict(s["meta"], mode="daemon: ephemeral data lost before the third job")))
-        last_run[s["case"] + "-D1"] = 2; last_run[s["case"] + "-D2"] = 3
+        # ... and the registry changes between two jobs: first no AS has route6 objects, then all of them are there
+        v4only = dict(run, irr=dict(run["irr"], routes6={a: [] for a in run["irr"]["routes6"]}))
+        scen.append(dict(s, case=s["case"] + "-D3", daemon={"period": 1, "sessions": 2, "reset_before": []}, runs=[v4only, run],
+                         meta=dict(s["meta"], mode="daemon: the IPv6 route objects appear between two jobs")))
+        last_run[s["case"] + "-D1"] = 2; last_run[s["case"] + "-D2"] = 3; last_run[s["case"] + "-D3"] = 2
     spath = os.path.join(wd, "agent-scenarios.ndjson")
     with open(spath, "w") as f:
         for s in scen:
